@@ -531,3 +531,17 @@ Definition dump (s : coll) : list (N * (list (N * value) * list N)) :=
   (λ i, (i, (row_with s ids i, idx_of s i))) <$> sorted_elems (fill s).
 Definition trig_log (s : coll) (id : N) : list tevent :=
   match find_comp s id with Some e => match xstate e with XTrigger l => l | _ => [] end | None => [] end.
+
+(* ------------------------------------------------------------------------------------- *)
+(* The side conditions under which the invariant theorems (StoreProofs6.v) speak about a
+   transaction, as booleans, so that Check.v can evaluate them on every recorded history:
+   every insert got a free offset, the marker buffer holds only inserts and deletes, every
+   put / merge goes to an occupied offset. *)
+Definition is_marker (o : op) : bool := match ok o with KInsert | KDelete => true | _ => false end.
+Definition writes_in_fill (s : coll) (t : txn) : bool :=
+  bool_decide (map_Forall (λ _ ops, Forall (λ o, (ok o = KPut ∨ ok o = KMerge) → ooff o ∈ fill s) ops) (tbufs t)).
+Definition res_fresh (r : res) : bool := match r with RIns _ _ false => false | _ => true end.
+Definition txn_wf (s : coll) (body : list stmt) : bool :=
+  let '(s1, t1, rs) := do_stmts s txn0 body in
+  forallb res_fresh rs && forallb is_marker (trow t1) && writes_in_fill s1 t1.
+
